@@ -356,6 +356,14 @@ def late_corpus():
                 "acqs": ["acq1"], "files": [{"acq": "acq1", "name": "f.dat", "size": 150}], "copies": [{"file": 0, "node": "n1", "has": "Y", "wants": "Y"}],
                 "reqs": [{"file": 0, "from": "n1", "to": "g2", "state": "pending"}], "rules": [], "unregistered": [], "ireqs": []}
         out.append((spec, [("late", "h1", [list(change)]), ("iter", "h1"), ("iter", "h1")]))
+    # a group loses its only local node (deactivated / re-hosted) while a transfer into it becomes possible: nothing is pulled there any more
+    for change in (("cli", "node deactivate", ["n2"]), ("cli", "node modify", ["n2", "--host=elsewhere"])):
+        spec = {"groups": [{"name": "g1"}, {"name": "g2"}],
+                "nodes": [{"name": "n1", "group": "g1", "stype": "A", "host": "h1", "active": False, "username": "u", "address": "addr"},
+                          {"name": "n2", "group": "g2", "stype": "A", "host": "h1", "active": True, "username": "u", "address": "addr"}],
+                "acqs": ["acq1"], "files": [{"acq": "acq1", "name": "f.dat", "size": 150}], "copies": [{"file": 0, "node": "n1", "has": "Y", "wants": "Y"}],
+                "reqs": [{"file": 0, "from": "n1", "to": "g2", "state": "pending"}], "rules": [], "unregistered": [], "ireqs": []}
+        out.append((spec, [("iter", "h1"), ("cli", "node activate", ["n1"]), list(change), ("iter", "h1"), ("iter", "h1")]))
     return out
 
 
